@@ -4,6 +4,7 @@ import (
 	"encoding/binary"
 	"fmt"
 	"math/rand"
+	"strings"
 	"time"
 )
 
@@ -191,6 +192,14 @@ func longAltTag(id uint16, name, field string, pick func(rng *rand.Rand) uint16)
 	}}
 }
 
+// long2Tag: a LONG field with two values (a two-strip image), stored out of line. The report is left undetermined
+// for the exact-value checks; C07 requires II and MM to agree on it.
+func long2Tag(id uint16, name, field string) tagSpec {
+	return tagSpec{id, name, func(rng *rand.Rand, size int) (LVal, map[string]interface{}) {
+		return LVal{Typ: tLong, Longs: []uint32{65536 + uint32(rng.Intn(1<<20)), 70000 + uint32(rng.Intn(1<<24))}}, map[string]interface{}{"~skip:" + field: true}
+	}}
+}
+
 func longTag(id uint16, name, field string, max uint32) tagSpec {
 	return tagSpec{id, name, func(rng *rand.Rand, size int) (LVal, map[string]interface{}) {
 		v := 1 + uint32(rng.Int63n(int64(max)))
@@ -280,6 +289,7 @@ var catalog = map[string]map[string][]tagSpec{
 		"embLong":    {longTag(0x0100, "ImageWidth", "ImageWidth", 65535), longTag(0x0101, "ImageLength", "ImageHeight", 65535), longTag(0x0111, "StripOffsets", "StripOffsets", 1<<31), longTag(0x0117, "StripByteCounts", "StripByteCounts", 1<<31)},
 		"embShort2":  {short2Tag(0x0111, "StripOffsets", "StripOffsets"), short2Tag(0x0117, "StripByteCounts", "StripByteCounts")},
 		"embLongAlt": {longAltTag(0x0112, "Orientation", "Orientation", oneOf(1, 2, 3, 4, 5, 6, 7, 8))},
+		"long2":      {long2Tag(0x0111, "StripOffsets", "StripOffsets"), long2Tag(0x0117, "StripByteCounts", "StripByteCounts")},
 		"embAscii":   {strTag(0x0131, "Software", "Software"), strTag(0x013b, "Artist", "Artist"), strTag(0x8298, "Copyright", "Copyright"), strTag(0x010e, "ImageDescription", "ImageDescription")},
 		"ascii":      {strTag(0x010f, "Make", "Make"), strTag(0x0110, "Model", "Model"), strTag(0x0131, "Software", "Software"), strTag(0x013b, "Artist", "Artist"), strTag(0x8298, "Copyright", "Copyright"), strTag(0x010e, "ImageDescription", "ImageDescription"), strTag(0xc62f, "CameraSerialNumber", "CameraSerial")},
 		"date":       {dateTag(0x0132, "DateTime", "ModifyDate")},
@@ -391,6 +401,8 @@ func classKey(cls string) (string, int) {
 		return "subsec", 7
 	case "subsec5":
 		return "subsec", 5
+	case "long2":
+		return "long2", 8
 	}
 	return cls, 4
 }
@@ -556,6 +568,14 @@ func ExpectedFields(c *ExifCase, bind map[int]*Bound) map[string]interface{} {
 	for _, k := range c.Out {
 		if b := bind[k]; b != nil {
 			for f, v := range b.Fields {
+				exp[f] = v
+			}
+		}
+	}
+	// "undetermined" markers hold for every entry that is present, reported or not
+	for _, b := range bind {
+		for f, v := range b.Fields {
+			if strings.HasPrefix(f, "~skip:") {
 				exp[f] = v
 			}
 		}
